@@ -1715,22 +1715,41 @@ def latin1_alpha(x):
         return z3.Or(*[z3.And(z3.UGE(x, lo), z3.ULE(x, hi)) for lo, hi in rngs])
     return any(lo <= x <= hi for lo, hi in rngs)
 
-@model('char::is_alphabetic', 'char::is_alphanumeric', 'char::is_numeric')
+_CHARTABLE = {}
+def chartable(name):
+    """inclusive ranges of the scalar values below U+10000 for which std's `char::is_<name>` holds, printed by the native executor
+    (`replay chartable`) - i.e. exactly the tables of the std the repository is compiled against"""
+    if not _CHARTABLE:
+        from props.common import run_replay
+        out = run_replay(['chartable'])
+        for k, v in out.items():
+            if k.startswith('_') or not v:
+                continue
+            _CHARTABLE[k] = [tuple(int(x, 16) for x in r.split('-')) for r in v[0].split(',') if r]
+        if 'alphabetic' not in _CHARTABLE:
+            raise Unsupported('the native executor did not produce the character tables')
+    return _CHARTABLE[name]
+
+def char_pred(I, name, x):
+    rngs = chartable(name)
+    if not is_sym(x):
+        if x >= 0x10000:
+            raise Unsupported('char::is_%s beyond the basic multilingual plane' % name)
+        return any(lo <= x <= hi for lo, hi in rngs)
+    if not I.ctx.must(z3.ULT(x, 0x10000)):
+        if not I.ctx.decide(z3.ULT(x, 0x10000)):
+            raise Unsupported('char::is_%s beyond the basic multilingual plane' % name)
+    # only the ranges the value can fall into on this path (keeps the term small)
+    live = [(lo, hi) for lo, hi in rngs if I.ctx.check(z3.And(z3.UGE(x, lo), z3.ULE(x, hi)))] if len(rngs) > 40 else rngs
+    return simp(z3.Or(*[z3.And(z3.UGE(x, lo), z3.ULE(x, hi)) if lo != hi else x == lo for lo, hi in live])) if live else False
+
+@model('char::is_alphabetic', 'char::is_alphanumeric', 'char::is_numeric', 'char::is_uppercase', 'char::is_lowercase')
 def m_is_alphabetic_unicode(I, c, args, fr):
-    """Unicode Alphabetic / Numeric for code points below U+0100 (exact table); beyond: outside the model"""
+    """Unicode predicates of std for scalar values below U+10000, from the tables of the compiled std"""
     x = deref(args[0])
-    if is_sym(x):
-        if not I.ctx.decide(z3.ULT(x, 0x100)):
-            raise Unsupported('char::%s beyond Latin-1' % c.name)
-    elif x >= 0x100:
-        raise Unsupported('char::%s beyond Latin-1' % c.name)
-    dig = z3.And(z3.UGE(x, 48), z3.ULE(x, 57)) if is_sym(x) else 48 <= x <= 57
-    num = b_or(dig, *[int_eq(x, k) for k in (0xb2, 0xb3, 0xb9, 0xbc, 0xbd, 0xbe)])
-    if c.name == 'is_alphabetic':
-        return simp(latin1_alpha(x)) if is_sym(x) else latin1_alpha(x)
-    if c.name == 'is_numeric':
-        return num
-    return b_or(latin1_alpha(x), num)
+    if is_sym(x) and x.size() != 32:
+        x = z3.ZeroExt(32 - x.size(), x)
+    return char_pred(I, c.name[3:], x)
 
 # ---------------------------------------------------------------------------- integer helpers / range bounds (C15)
 def _int_bits(c):
